@@ -223,7 +223,7 @@ func init() {
 		Rule: "generated CRS trees with 2..n assembly files (sharing stored-expression name st1 and definition name d1, different flags/prefixes/suffixes, chain offsets, include and include-except users, cmdline blocks) are copied; copy A gets update / format / compare (text and github) --all, copies B1..B3 get the same command once per file in three PRNG-chosen orders. A quarter of the trees each carry a leak construction: the last file in walk order appends a stored name that only the first file stores (must fail like the single invocation does), references a definition that only the first file makes, or follows a file with flags, prefix and suffix. " +
 			"Oracle: the snapshot of A equals the snapshot of every B (for compare: the multiset of per-rule report blocks, and in github mode failure iff any single invocation fails); exit status of --all non-zero iff a single invocation fails. Non-trivial = >= 2 addressable files.",
 		Cases: func(env *core.Env, rng *rand.Rand) []core.Case {
-			n := env.N(120, 3000)
+			n := env.N(300, 3000)
 			var cs []core.Case
 			for i := 0; i < n; i++ {
 				cs = append(cs, c08Gen(rng, i))
